@@ -54,6 +54,15 @@
 
 #include "mp/ampls-cpp-api.h"
 
+#ifdef AMPL_MP_VERIF
+// Verification call-out (off by default): lets a deterministic simulator
+// observe / deliver signals at named points of SignalHandler.
+extern "C" void mp_verif_point(const char* name);
+# define MP_VERIF_POINT(name) mp_verif_point(name)
+#else
+# define MP_VERIF_POINT(name) ((void)0)
+#endif
+
 namespace {
 
 const char *SkipSpaces(const char *s) {
@@ -502,23 +511,35 @@ SignalHandler::SignalHandler(BasicSolver &s)
   signal_message_ptr_ = message_.c_str();
   signal_message_size_ = static_cast<unsigned>(message_.size());
   std::signal(SIGINT, HandleSigInt);
+  MP_VERIF_POINT("sigh.ctor.after_signal_int");
   std::signal(SIGTERM, HandleSigInt);
+  MP_VERIF_POINT("sigh.ctor.after_signal_term");
   stop_ = 0;
+  MP_VERIF_POINT("sigh.ctor.end");
 }
 
 SignalHandler::~SignalHandler() {
+  MP_VERIF_POINT("sigh.dtor.begin");
   solver_.set_interrupter(0);
+  MP_VERIF_POINT("sigh.dtor.after_set_interrupter");
   stop_ = 1;
+  MP_VERIF_POINT("sigh.dtor.after_stop");
   handler_ = 0;
+  MP_VERIF_POINT("sigh.dtor.after_handler_reset");
   signal_message_size_ = 0;
+  MP_VERIF_POINT("sigh.dtor.end");
 }
 
 void SignalHandler::SetHandler(InterruptHandler handler, void *data) {
+  MP_VERIF_POINT("sigh.sethandler.begin");
   handler_ = handler;
+  MP_VERIF_POINT("sigh.sethandler.after_handler_store");
   data_ = data;
+  MP_VERIF_POINT("sigh.sethandler.after_data_store");
 }
 
 void SignalHandler::HandleSigInt(int sig) {
+  MP_VERIF_POINT("sigh.handle.enter");
   unsigned count = 0;
   do {
     // Use asynchronous-safe function write instead of printf!
@@ -527,16 +548,20 @@ void SignalHandler::HandleSigInt(int sig) {
     if (result < 0) break;
     count += result;
   } while (count < signal_message_size_);
+  MP_VERIF_POINT("sigh.handle.after_write");
   if (stop_>1) {    // AMPL seems to send 2x SIGINT
     // Use asynchronous-safe function _exit instead of exit!
     _exit(1);
   }
   ++stop_;
+  MP_VERIF_POINT("sigh.handle.after_inc");
   if (InterruptHandler handler = handler_)
     handler(data_);
+  MP_VERIF_POINT("sigh.handle.after_callback");
   // Restore the handler since it might have been reset before the handler
   // is called (this is implementation defined).
   std::signal(sig, HandleSigInt);
+  MP_VERIF_POINT("sigh.handle.exit");
 }
 
 
